@@ -89,7 +89,7 @@ partial def step (s : Sess) : List String → Sess × String
       | some m => (s, "ok" ++ String.join (m.map fun x => s!" {x}"))
   | "doc" :: _ :: tbl :: _ =>
     match parseTable tbl with
-    | some d => ({ doc := d, vars := [], nextAddr := 1000 }, s!"ok {d.length}")
+    | some d => ({ doc := d, vars := [], nextAddr := 1000 }, s!"ok {d.length}" ++ (if d.wfB then "" else " not-well-formed"))
     | none => (s, "bad")
   | ["eval", ctx, h] =>
     match ctx.toNat? with
